@@ -205,7 +205,7 @@ func (u *useGen) page(depth int) []*tw.Stmt {
 
 func TestC07_Components(t *testing.T) {
 	c := harness.New(t, "C07", "components",
-		"pages with 1..4 uses of eight component files (one with twelve placeholders; two placeholders whose names differ in letter case only; arguments used in text, expressions and conditions; a page variable that is not passed; two files that take nothing and show the variable of the loop around the use; default and named top-level slots; one under components/ addressed by '~name'): the same component several times with different arguments and different / missing slot bodies, uses inside @each and @for (arguments and slot bodies from the loop variable, >= 2 passes), inside @if/@elseif/@else, inside the @else of @each and @for, inside @insert blocks of a layout, and inside the slot body passed to another use; slot bodies with text and {{ }} over page variables; blanks, line ends and comments before the first slot, between slots and before the closing @end. Expected: reference instantiation (arguments evaluated at the place of use, surrounding scope visible, each placeholder replaced by the body passed by that use or nothing). Non-trivial: one component used >= 2 times or a use evaluated in a loop. Distinct by hash of files + data.")
+		"pages with 1..4 uses of eight component files (one with twelve placeholders; two placeholders whose names differ in letter case only; arguments used in text, expressions and conditions; a page variable that is not passed; two files that take nothing and show the variable of the loop around the use; default and named top-level slots; one under components/ addressed by '~name'): the same component several times with different arguments and different / missing slot bodies, uses inside @each and @for (arguments and slot bodies from the loop variable, >= 2 passes), inside @if/@elseif/@else, inside the @else of @each and @for, inside @insert blocks of a layout, and inside the slot body passed to another use; slot bodies with text and {{ }} over page variables; blanks, line ends and comments before the first slot, between slots and before the closing @end; in one directory of five some component and layout files are symbolic links to files kept elsewhere. Expected: reference instantiation (arguments evaluated at the place of use, surrounding scope visible, each placeholder replaced by the body passed by that use or nothing). Non-trivial: one component used >= 2 times or a use evaluated in a loop. Distinct by hash of files + data.")
 	defer c.Finish()
 	in := interp()
 	runRapid(t, c, 4000, 45000, func(rt *rapid.T) {
@@ -231,6 +231,16 @@ func TestC07_Components(t *testing.T) {
 		}
 		out, _ := in.RenderPage(files, pageName, env.Model)
 		cs := treeCase{Files: printFiles(files, genLayout().Draw(rt, "layout")), Dir: "t", Ext: ".tw", Page: pageName, Data: env.D, Want: wantFromOut(out)}
+		if rapid.IntRange(0, 4).Draw(rt, "linkedFiles") == 0 {
+			// some of the files are symbolic links to files kept outside the template directory (a shared component library)
+			for n := range cs.Files {
+				if n != pageName {
+					cs.Linked = append(cs.Linked, n)
+				}
+			}
+			sortStrings(cs.Linked)
+			cs.Linked = rapid.SliceOfNDistinct(rapid.SampledFrom(cs.Linked), 1, len(cs.Linked), rapid.ID[string]).Draw(rt, "linked")
+		}
 		maxUses := 0
 		for _, d := range c07Components() {
 			if u.uses[d.name] > maxUses {
@@ -244,10 +254,13 @@ func TestC07_Components(t *testing.T) {
 				classes = append(classes, "use:"+k)
 			}
 		}
+		if len(cs.Linked) > 0 {
+			classes = append(classes, "symlinked-component-files")
+		}
 		if out.St == refint.Unspec {
 			classes = append(classes, "unspecified:"+firstWords(out.Why, 4))
 		}
-		c.Case(nt, mustJSON(cs.Files)+mustJSON(env.D), classes...)
+		c.Case(nt, mustJSON(cs.Files)+mustJSON(cs.Linked)+mustJSON(env.D), classes...)
 		if nt {
 			c.Sample(cs.sample())
 		}
